@@ -80,6 +80,7 @@ HasEni(E, e) == \E y \in E : y.e = e
 EniSt(E, e) == IF HasEni(E, e) THEN EniRec(E, e).st ELSE "absent"
 EniRdma(E, e) == HasEni(E, e) /\ EniRec(E, e).rdma
 Bound(I) == { x \in I : x.p # 0 }
+Doomed(st) == st \in {"Deleting", "Detaching"}
 
 (* The strict clause: a `deleted` stamp that predates a later successful ADD of the same UID does not report the *)
 (* teardown of the sandbox that is up now - once the agent has had a (successful) flush opportunity after that ADD. *)
@@ -200,7 +201,6 @@ Restart == UNCHANGED vars
 IsNew(y) == ~\E x \in crI : x.e = y.e /\ x.a = y.a /\ x.p = y.p
 TakeOver(y) == y.p \in Pods /\ ((Fam(y.a) = 4 /\ pods[y.p].r4 = y.a) \/ (Fam(y.a) = 6 /\ pods[y.p].r6 = y.a))
 Kept(x, NI) == \E y \in NI : y.e = x.e /\ y.a = x.a /\ y.p = x.p
-Doomed(st) == st \in {"Deleting", "Detaching"}
 Marked(x, NE, NI) == \/ \E y \in NI : y.e = x.e /\ y.a = x.a /\ y.p = x.p /\ y.st = "Deleting" /\ x.st # "Deleting"
                      \/ (Doomed(EniSt(NE, x.e)) /\ ~Doomed(EniSt(crE, x.e)))
 
@@ -232,9 +232,10 @@ Slots == { e \in Attached : e \in Recorded \/ <<e, 0>> \in seen } \cup { e \in f
 CreateBegin(n4, n6, type, rdma) ==
     /\ G("C08", n4 <= (IF conf.v4 THEN conf.cap4 ELSE 1) /\ n6 <= conf.cap6)                         \* addresses per interface
     /\ G("C08", Cardinality(Slots) < conf.maxEni)                                                    \* interfaces per node
-    /\ G("C08", IF type = "Trunk" THEN conf.trunk /\ ~\E e \in Slots : cloud[e].type = "Trunk"       \* ... and per flavor
-                ELSE IF rdma THEN Cardinality({ e \in Slots : cloud[e].rdma }) < conf.rdma
-                ELSE Cardinality({ e \in Slots : cloud[e].type = "Secondary" /\ ~cloud[e].rdma }) < conf.sec)
+    /\ G("C08", LET keep == { e \in Slots : ~Doomed(EniSt(crE, e)) } IN                               \* ... and per flavor (lenient: an interface
+                IF type = "Trunk" THEN conf.trunk /\ ~\E e \in keep : cloud[e].type = "Trunk"          \*  recorded for deletion counts for the node
+                ELSE IF rdma THEN Cardinality({ e \in keep : cloud[e].rdma }) < conf.rdma              \*  total but no longer for its flavor)
+                ELSE Cardinality({ e \in keep : cloud[e].type = "Secondary" /\ ~cloud[e].rdma }) < conf.sec)
     /\ UNCHANGED vars
 
 CreateEnd(e, type, rdma, primary, v4s, v6s) ==
